@@ -15,7 +15,7 @@ Base == {0, 1, 2, 3, 4, 5, 7, 8, 15, 16, 17, 31, 32, 33, 63, 64, 65, 127, 128, 1
 Ns == {n \in Base \cup Around(Thresholds) \cup (IF Tier = "quick" THEN {} ELSE {511, 512, 513, 1000, 2048, 4096, 5000}) : n >= 0}
 Ts == IF Tier = "quick" THEN {0, 1, 3, 16, 64, 1024} ELSE {0, 1, 2, 3, 5, 8, 16, 17, 63, 64, 65, 128, 1024}
 Blank == [kind |-> "api", n |-> 0, tasks |-> 0, mont |-> TRUE, small |-> 0, points |-> "srs", scalars |-> "rnd", c |-> 0, split |-> FALSE]
-PCl == {"srs", "dup", "withid", "flip", "proj", "same"}
+PCl == {"srs", "dup", "withid", "flip", "proj", "same", "neg"}
 SCl == {"rnd", "zero", "one", "edge", "ones", "half", "oneword", "limbs"}
 Cases ==
   {[Blank EXCEPT !.n = n, !.tasks = t, !.mont = m] : n \in Ns, t \in Ts, m \in BOOLEAN}
@@ -23,6 +23,11 @@ Cases ==
   \cup {[Blank EXCEPT !.n = n, !.tasks = t, !.small = sm, !.mont = m] : n \in {10, 20, 100, 257, 600}, t \in {1, 16, 64}, sm \in {9, 10, 11, 50, 100}, m \in BOOLEAN}
   \cup {[Blank EXCEPT !.kind = "inner", !.c = c, !.split = sp, !.n = n, !.scalars = s, !.mont = (c % 2 = 0)] :
           c \in {4, 5, 6, 7, 8, 9, 10, 11, 12, 13, 14, 15, 16}, sp \in BOOLEAN, n \in {1, 2, 37, 300}, s \in {"rnd", "edge", "ones", "half", "oneword", "limbs"}}
+  \* bucket collisions for every window width: repeated points (and P next to -P) with equal digits meet in one bucket
+  \cup {[Blank EXCEPT !.kind = "inner", !.c = c, !.split = sp, !.n = n, !.points = p, !.scalars = s, !.mont = (c % 2 = 1)] :
+          c \in {4, 5, 6, 7, 8, 9, 10, 11, 12, 13, 14, 15, 16} \cup (IF Tier = "quick" THEN {} ELSE {20, 21}), sp \in {FALSE}, n \in {2, 37},
+          p \in {"dup", "same", "withid", "neg"}, s \in {"ones", "rnd", "half", "edge"}}
+  \cup {[Blank EXCEPT !.n = n, !.tasks = t, !.points = p, !.scalars = s] : n \in (IF Tier = "quick" THEN {} ELSE {4200}), t \in {1, 16}, p \in {"dup", "same", "neg"}, s \in {"ones", "rnd"}}
   \cup {[Blank EXCEPT !.kind = "inner", !.c = c, !.split = sp, !.n = 37, !.scalars = "rnd"] : c \in {20, 21}, sp \in (IF Tier = "quick" THEN {TRUE} ELSE BOOLEAN)}
   \* one-word and limb-boundary scalars at sizes where each window width c divides / does not divide 64 gets chosen
   \cup {[Blank EXCEPT !.n = n, !.tasks = t, !.scalars = s, !.mont = m] : n \in {1, 7, 33, 100, 1000}, t \in {1, 16}, s \in {"oneword", "limbs"}, m \in BOOLEAN}
